@@ -185,3 +185,39 @@ def set_session(tdir, sav_raw, omn, session='default_run'):
     if omn is not None:
         with open(os.path.join(tdir, session + '.omn'), 'wb') as f:
             f.write(omn)
+
+
+def run_cli(tdir, module, argv):
+    """Run <module>.main() of the scratch tree as a fresh process; returns Run (stdout lines, stderr, pt events)."""
+    tree.use(tdir)
+    run = Run()
+    out, err = io.StringIO(), io.StringIO()
+    old_argv = sys.argv
+    sys.argv = [os.path.join(tdir, module + '.py')] + list(argv)
+    try:
+        with contextlib.redirect_stdout(out), contextlib.redirect_stderr(err):
+            try:
+                mod = tree.imp(module)
+                gm = sys.modules.get('lib_guesser.pcfg_grammar')
+                if gm is not None:
+                    G = gm.PcfgGrammar
+                    orig_create = G.create_guesses
+
+                    def create_guesses(self, pt, *a, **kw):
+                        n = orig_create(self, pt, *a, **kw)
+                        run.events.append(('pt', tuple(tuple(x) for x in pt), n))
+                        return n
+                    G.create_guesses = create_guesses
+                mod.main()
+            except SystemExit as e:
+                run.exc = 'SystemExit(%r)' % (e.code,)
+            except BaseException:
+                import traceback
+                run.exc = traceback.format_exc()
+    finally:
+        sys.argv = old_argv
+    run.stdout = out.getvalue().split('\n')
+    if run.stdout and run.stdout[-1] == '':
+        run.stdout.pop()
+    run.stderr = err.getvalue()
+    return run
